@@ -460,11 +460,25 @@ def targetName : Expr → Option String
   | .name x => some x
   | _ => Option.none
 
+/-- all conditions hold (left to right, short-circuit at the first falsy one) -/
+def condsHold : List Res → Except EErr Bool
+  | [] => .ok true
+  | r :: rs => do
+    let v ← r
+    if truthy v then condsHold rs else pure false
+
+def filterMB (p : Val → Except EErr Bool) : List Val → Except EErr (List Val)
+  | [] => .ok []
+  | v :: vs => do
+    let b ← p v
+    let rest ← filterMB p vs
+    pure (if b then v :: rest else rest)
+
 def compSem (target : Option String) (elt iter : Den) (ifs : List Den) (isAsync : Bool) : Den := fun env =>
   match target, isAsync with
   | some x, false => do
     let vs ← asSeq (← iter env)
-    let keep ← filterM' (fun v => andChain (.ok (.bool true) :: ifs.map (· (env.upd x v)))) vs
+    let keep ← filterMB (fun v => condsHold (ifs.map (· (env.upd x v)))) vs
     let rs ← mapRes (fun v => elt (env.upd x v)) keep
     pure (.list rs)
   | _, _ => .error (.unsupported "comprehension form")
